@@ -424,6 +424,170 @@ class Installed:
     """context: pyrtcm imported from /repo/src with shims in place and transforms applied"""
 
 
+# ----------------------------------------------------------------------------------------------
+# regular expressions over symbolic bytes: patterns that are a fixed-length sequence of byte classes
+# ----------------------------------------------------------------------------------------------
+
+def _byte_classes(pattern, flags=0):
+    """[set of admissible byte values, ...] for a pattern made of literals / classes / '.', else None"""
+    import re as _re
+    try:
+        parser = _re._parser
+    except AttributeError:  # pragma: no cover
+        import sre_parse as parser
+    try:
+        tree = parser.parse(pattern, flags)
+    except Exception:  # noqa
+        return None
+    out = []
+    for op, arg in tree:
+        name = str(op)
+        if name == 'LITERAL':
+            out.append({arg})
+        elif name == 'NOT_LITERAL':
+            out.append(set(range(256)) - {arg})
+        elif name == 'ANY':
+            out.append(set(range(256)) - ({10} if not flags & _re.DOTALL else set()))
+        elif name == 'IN':
+            acc, neg = set(), False
+            for o2, a2 in arg:
+                n2 = str(o2)
+                if n2 == 'NEGATE':
+                    neg = True
+                elif n2 == 'LITERAL':
+                    acc.add(a2)
+                elif n2 == 'RANGE':
+                    acc |= set(range(a2[0], a2[1] + 1))
+                else:
+                    return None
+            out.append(set(range(256)) - acc if neg else acc)
+        else:
+            return None
+    return out
+
+
+class MatchShim:
+    def __init__(self, data, i, j):
+        self._d, self._i, self._j = data, i, j
+
+    def start(self, g=0):
+        return self._i
+
+    def end(self, g=0):
+        return self._j
+
+    def span(self, g=0):
+        return (self._i, self._j)
+
+    def group(self, g=0):
+        return self._d[self._i:self._j]
+
+    def __getitem__(self, g):
+        return self.group(g)
+
+    def __getattr__(self, name):
+        raise sym.Unsupported(f"re.Match.{name} on symbolic bytes")
+
+
+class PatternShim:
+    """compiled pattern: concrete subjects go to the real pattern; symbolic byte strings are decided position by position (one decision
+    per candidate start) when the pattern is a fixed-length sequence of byte classes; anything else is reported as unsupported"""
+
+    def __init__(self, pat):
+        self._p = pat
+        self._cls = _byte_classes(pat.pattern, pat.flags & ~32) if isinstance(pat.pattern, bytes) else None
+
+    def _at(self, data, i):
+        conds = []
+        for k, cl in enumerate(self._cls):
+            e = data.e[i + k]
+            if isinstance(e, _real_int):
+                if e not in cl:
+                    return False
+                continue
+            t = sym.byte_term(e)
+            conds.append(z3.Or(*[t == v for v in sorted(cl)]) if len(cl) <= 128 else z3.Not(z3.Or(*[t == v for v in sorted(set(range(256)) - cl)])) if len(cl) < 256 else z3.BoolVal(True))
+        if not conds:
+            return True
+        return bool(sym.SymBool(z3.And(*conds) if len(conds) > 1 else conds[0]))
+
+    def _scan(self, data, pos, endpos, anchored=False, full=False):
+        if not isinstance(data, SymBytes):
+            return None
+        if self._cls is None:
+            raise sym.Unsupported(f"regular expression {self._p.pattern!r} on symbolic bytes")
+        n = len(data.e)
+        pos = min(max(sym._cidx(pos) or 0, 0), n)
+        endpos = n if endpos is None else min(sym._cidx(endpos), n)
+        m = len(self._cls)
+        for i in range(pos, endpos - m + 1):
+            if full and i + m != endpos:
+                return False
+            if self._at(data, i):
+                return MatchShim(data, i, i + m)
+            if anchored:
+                break
+        return False
+
+    def search(self, data, pos=0, endpos=None):
+        r = self._scan(data, pos, endpos)
+        return self._p.search(data, pos, *(() if endpos is None else (endpos,))) if r is None else (r or None)
+
+    def match(self, data, pos=0, endpos=None):
+        r = self._scan(data, pos, endpos, anchored=True)
+        return self._p.match(data, pos, *(() if endpos is None else (endpos,))) if r is None else (r or None)
+
+    def fullmatch(self, data, pos=0, endpos=None):
+        r = self._scan(data, pos, endpos, anchored=True, full=True)
+        return self._p.fullmatch(data, pos, *(() if endpos is None else (endpos,))) if r is None else (r or None)
+
+    def __getattr__(self, name):
+        real = getattr(self._p, name)
+        if not callable(real):
+            return real
+
+        def call(data, *a, **k):
+            if isinstance(data, (SymBytes, sym.SymStr)):
+                raise sym.Unsupported(f"re.Pattern.{name} on symbolic data")
+            return real(data, *a, **k)
+        return call
+
+
+class ReShim:
+    """stand-in for the `re` module inside the package: compile() returns a PatternShim; the function forms go through it"""
+
+    def __init__(self):
+        import re as _re
+        self._re = _re
+        self._cache = {}
+
+    def compile(self, pattern, flags=0):
+        key = (pattern, int(flags))
+        if key not in self._cache:
+            self._cache[key] = PatternShim(self._re.compile(pattern, flags))
+        return self._cache[key]
+
+    def search(self, pattern, data, flags=0):
+        return self.compile(pattern, flags).search(data)
+
+    def match(self, pattern, data, flags=0):
+        return self.compile(pattern, flags).match(data)
+
+    def fullmatch(self, pattern, data, flags=0):
+        return self.compile(pattern, flags).fullmatch(data)
+
+    def __getattr__(self, name):
+        real = getattr(self._re, name)
+        if not callable(real) or isinstance(real, type):
+            return real
+
+        def call(*a, **k):
+            if any(isinstance(x, (SymBytes, sym.SymStr)) for x in a):
+                raise sym.Unsupported(f"re.{name} on symbolic data")
+            return real(*a, **k)
+        return call
+
+
 _STATE = {}
 
 
@@ -460,6 +624,18 @@ def install(ifconv=True, pred=True, merged_nmea=True, crc_ifconv=True):
     if merged_nmea and isinstance(rr.__dict__.get('NMEA_HDR'), list):
         rr.__dict__['NMEA_HDR'] = MergedList(rr.NMEA_HDR)
         info['shims'].append("NMEA_HDR wrapped: one decision per membership test")
+    import re as _re
+    nre = 0
+    for mod in (rm, rr, rh, sw):
+        for name, val in list(vars(mod).items()):
+            if val is _re:
+                mod.__dict__[name] = ReShim()
+                nre += 1
+            elif isinstance(val, _re.Pattern):
+                mod.__dict__[name] = PatternShim(val)
+                nre += 1
+    if nre:
+        info['shims'].append(f"re / compiled patterns ({nre} bindings): byte-class sequences decided per start position on symbolic bytes")
     orig = {}
     M = rm.RTCMMessage
     orig['RTCMMessage._set_attribute_single'] = M.__dict__.get('_set_attribute_single')
